@@ -1401,7 +1401,9 @@ class Store:
 
             # get the daughter processes
             if 'processes' in daughter or 'steps' in daughter:
-                processes = daughter['processes']
+                # (a copy: the steps are not merged into the
+                # dictionary the update holds)
+                processes = deep_copy_internal(daughter['processes'])
                 deep_merge_check(processes, daughter.get('steps', {}))
             else:
                 # if no processes provided, copy the mother's processes
